@@ -135,7 +135,11 @@ fn scfg(w: &[u128], t: u128) -> SignerCfg {
     SignerCfg { weights: w.to_vec(), threshold: t }
 }
 
-const EXTRA_KEY: usize = 5; // key used by rotation targets and "other key" signatures
+/// key used by rotation targets (the one before it signs the "other key" signatures): just past the
+/// largest set's own keys
+fn extra_key(n_signers: usize) -> usize {
+    5.max(n_signers + 1)
+}
 
 impl C01 {
     fn new(thorough: bool) -> C01 {
@@ -187,6 +191,17 @@ impl C01 {
             }
         }
         cfgs.push((scfg(&[1], 1), Hist { retention: 0, rotations: 0, dup_attempt: true, advance: 0, pre: 0, init: 0 }, true));
+        // sets well beyond the small scope (33 signers; thorough also 100): no product over the
+        // status alphabet here but every single-position deviation from the all-valid proof, and
+        // prefixes / suffixes of signers around the threshold
+        let mut large = vec![scfg(&[1; 33], 17), scfg(&[1; 33], 33)];
+        if thorough {
+            large.push(scfg(&[3; 100], 200));
+        }
+        for s in large {
+            cfgs.push((s.clone(), hists[0], true));
+            cfgs.push((s, hists[1], true));
+        }
         C01 { cfgs, thorough }
     }
 
@@ -247,13 +262,14 @@ impl Scenario for C01 {
         let owner = env.register(Principal, ());
         let operator = env.register(Principal, ());
         let dest = env.register(Principal, ());
-        let keys = Keys::new(6);
+        let extra = extra_key(s.weights.len());
+        let keys = Keys::new(extra + 1);
         let set = SetSpec {
             signers: s.weights.iter().enumerate().map(|(i, w)| (i, *w)).collect(),
             threshold: s.threshold,
             nonce: 7,
         };
-        let other = SetSpec { signers: vec![(EXTRA_KEY, 1)], threshold: 1, nonce: 90 };
+        let other = SetSpec { signers: vec![(extra, 1)], threshold: 1, nonce: 90 };
         let initial: Vec<RawSet> = match h.init {
             1 => vec![other.raw(&keys), set.raw(&keys)],
             2 => vec![set.raw(&keys), other.raw(&keys)],
@@ -279,7 +295,7 @@ impl Scenario for C01 {
         // rotations through the real entry point, each authorised by the then-latest set
         let mut latest = if h.init == 2 { other.clone() } else { set.clone() };
         for r in 0..h.rotations {
-            let next = SetSpec { signers: vec![(EXTRA_KEY, 1)], threshold: 1, nonce: 100 + r as u8 };
+            let next = SetSpec { signers: vec![(extra, 1)], threshold: 1, nonce: 100 + r as u8 };
             let raw = next.raw(&keys);
             let proof = honest_proof(&keys, &latest, &DOMAIN, &raw.rotation_data_hash());
             let call = w.call(
@@ -324,6 +340,48 @@ impl Scenario for C01 {
         let n = ctx.set.signers.len();
         let alphabet: &[St] = if ctx.full { &ALL_ST } else { &SMALL_ST };
         let mut v = vec![];
+        if n > 4 {
+            let need: usize = {
+                // signers (in list order) needed to reach the threshold
+                let mut acc: u128 = 0;
+                let mut k: usize = 0;
+                for (_, wt) in &ctx.set.signers {
+                    if acc >= ctx.set.threshold { break; }
+                    acc = acc.saturating_add(*wt);
+                    k += 1;
+                }
+                k
+            };
+            for approve in [true, false] {
+                v.push(Act::Vector { st: vec![St::Valid; n], approve });
+                v.push(Act::Vector { st: vec![St::Unsigned; n], approve });
+                for i in 0..n {
+                    for s in ALL_ST {
+                        if s == St::Valid { continue; }
+                        let mut st = vec![St::Valid; n];
+                        st[i] = s;
+                        v.push(Act::Vector { st, approve });
+                    }
+                }
+                for k in [need.saturating_sub(1), need, need + 1] {
+                    if k > n { continue; }
+                    let mut pre = vec![St::Unsigned; n];
+                    let mut suf = vec![St::Unsigned; n];
+                    for i in 0..k { pre[i] = St::Valid; suf[n - 1 - i] = St::Valid; }
+                    v.push(Act::Vector { st: pre, approve });
+                    v.push(Act::Vector { st: suf, approve });
+                }
+            }
+            for t in TAMPERS {
+                for over_tampered in [false, true] {
+                    v.push(Act::Tampered { t, over_tampered, approve: true, st: vec![] });
+                }
+            }
+            for kind in 0..3u8 {
+                v.push(Act::Batch { kind, dev: BatchDev::None });
+            }
+            return v;
+        }
         // every vector of per-signer statuses
         let total = alphabet.len().pow(n as u32);
         for approve in [true, false] {
@@ -436,7 +494,7 @@ impl Scenario for C01 {
                             other.nonce = [8; 32];
                             Some(sign(keys, *kix, &digest(&DOMAIN, &other.hash(), &dh)))
                         }
-                        St::OtherKey => Some(sign(keys, EXTRA_KEY - 1, &good)),
+                        St::OtherKey => Some(sign(keys, extra_key(ctx.set.signers.len()) - 1, &good)),
                         St::FlipR => Some(flip(&sign(keys, *kix, &good), 3)),
                         St::FlipS => Some(flip(&sign(keys, *kix, &good), 40)),
                     };
@@ -467,7 +525,7 @@ impl Scenario for C01 {
                     Tamper::DropLast => {
                         d.signers.pop();
                     }
-                    Tamper::AddSigner => d.signers.push((keys.pk[EXTRA_KEY], 1)),
+                    Tamper::AddSigner => d.signers.push((keys.pk[extra_key(ctx.set.signers.len())], 1)),
                     Tamper::DupFirst => {
                         let f = d.signers[0];
                         d.signers.insert(0, f);
@@ -650,7 +708,7 @@ fn main() {
     main_for(|tier| {
         let s = C01::new(tier == "thorough");
         let mut o = Opts::new(tier, 1);
-        o.rule = "one submission from each base state; base states = 11 (quick) / 17 (thorough, adds 4-signer sets) signer configurations with boundary weights/thresholds x 14 histories (constructed with one or two initial sets in either order, retention 0-2 and u64::MAX, 0-3 real rotations after the set under test, 0 / 20 / 7,000,000 ledgers passing, message m1 already approved / already executed before the submission). Per base state: EVERY vector of per-signer status from {unsigned, valid, other domain separator, other command kind, other batch, other signer-set hash, other key, bit-flipped R, bit-flipped s} (9^N on the fresh gateway, 3^N on the histories) through approve_messages and validate_proof; 10 tamperings of the declared set x {signatures over the true set's digest, over the tampered set's digest}; batches of 1, 2 and 2-with-duplicate-id, each also submitted with one field / one message changed relative to the signed batch. Oracle: independent predicate (set installed and retained, valid weight >= threshold) with independently recomputed digests".into();
+        o.rule = "one submission from each base state; base states = 11 (quick) / 17 (thorough, adds 4-signer sets) signer configurations, plus 33-signer sets (thresholds 17 and 33; thorough also 100 signers) with every single-position deviation from the all-valid proof and signer prefixes / suffixes around the threshold, with boundary weights/thresholds x 14 histories (constructed with one or two initial sets in either order, retention 0-2 and u64::MAX, 0-3 real rotations after the set under test, 0 / 20 / 7,000,000 ledgers passing, message m1 already approved / already executed before the submission). Per base state: EVERY vector of per-signer status from {unsigned, valid, other domain separator, other command kind, other batch, other signer-set hash, other key, bit-flipped R, bit-flipped s} (9^N on the fresh gateway, 3^N on the histories) through approve_messages and validate_proof; 10 tamperings of the declared set x {signatures over the true set's digest, over the tampered set's digest}; batches of 1, 2 and 2-with-duplicate-id, each also submitted with one field / one message changed relative to the signed batch. Oracle: independent predicate (set installed and retained, valid weight >= threshold) with independently recomputed digests".into();
         (s, o)
     });
 }
